@@ -37,6 +37,9 @@ def generate(run_seed, tier):
         fams = list(W.FAMILIES)
         rw.shuffle(fams)
         fams = fams[: rw.randint(7, len(fams))]
+        if rw.random() < 0.5:
+            # wider operator coverage (where/mask, loc, nlargest, accessors, melt, combine_first, ...)
+            fams += rw.sample(list(W.EXTENDED_FAMILIES), rw.randint(2, len(W.EXTENDED_FAMILIES)))
         if "cut" not in fams and rw.random() < 0.5:
             fams.append("cut")
         # bias: siblings that differ in one operand inside one graph (key-prefix collisions)
